@@ -1193,9 +1193,8 @@ func (r *R1) template(t *T, sc *Scope) (V, *ctl) {
 			if isForm(t, "unquote-splicing") {
 				panic(Unmodelled{"splice outside a list"})
 			}
-			if t.L[0].K == 'y' && t.L[0].S == "syntaxQuote" {
-				panic(Unmodelled{"nested syntax quote"})
-			}
+			// a syntax-quote written inside a template is part of the template: its
+			// unquotes are substituted like any other and the form itself stays
 		}
 		var out []V
 		for _, c := range t.L {
